@@ -138,7 +138,7 @@ FunctorManager::Env FunctorManager::createEnv(Context& caller, unsigned id, cons
     {
       if (i < proto->_storage_pool.size())
         *(_ctx->_storage_pool[i].symbol) = *(proto->_storage_pool[i].symbol);
-      _ctx->_storage_pool[i].value = Value(*(_ctx->_storage_pool[i].symbol));
+      _ctx->_storage_pool[i].value = std::move(Value(*(_ctx->_storage_pool[i].symbol)).to_lvalue(true));
     }
   }
 
